@@ -246,6 +246,10 @@ class SimListProxy:
         if req.dropped:
             raise EOFError("manager connection closed")
         sim.yield_(mgr._w.rtt, "mgr-ack:%s" % op)
+        if me is getattr(sim, "main_task", None) and mgr._w.rtt:
+            cap = getattr(sim, "captured", None)
+            if cap is not None:
+                cap["parent_rtt"] = cap.get("parent_rtt", 0.0) + mgr._w.rtt
         me.attrs["acks"] = me.attrs.get("acks", 0) + 1
         me.attrs["lines_at_ack"] = me.lines
         if isinstance(req.result, BaseException):
